@@ -6,5 +6,5 @@ From Coq Require Import Strings.Byte NArith.
 Extraction Language OCaml.
 Cd "../build/extract".
 Extraction "model.ml" World.step' World.init_world World.run Byte.to_N Byte.of_N BS.Bytes.byte_of_N
-  FS.fs_files Judge.judge_step Judge.judge_files Judge.judge_init Spec.ss_det Format.decode Format.parse_file Format.encode.
+  FS.fs_files Judge.judge_class Judge.judge_step Judge.judge_files Judge.judge_init Spec.ss_det Format.decode Format.parse_file Format.encode.
 Cd "../../coq".
